@@ -192,6 +192,13 @@ def obligations(st, names, job):
                     obs.append({"label": "%s %s: v_from / v_to = v_N * normfactor" % (tbl, ix), "fp": "C02/reported/v_gas",
                                 "goal": z3.And(_t(res.at[ix, "v_from_m_per_s"]) == vn * nf_from,
                                                _t(res.at[ix, "v_to_m_per_s"]) == vn * nf_to)})
+                if "v_mean_m_per_s" in res.columns:
+                    # the mean velocity of a gas is the norm velocity times the norm factor at mean pressure and temperature
+                    pm = _pm(pf, pt, st, b)
+                    tmn = (tfrom + tout) / 2
+                    nf_mean = pn * tmn * (ko + ks * pm) / (tn * pm)
+                    obs.append({"label": "%s %s: v_mean = v_N * normfactor(p_m, T_m)" % (tbl, ix), "fp": "C02/reported/v_mean_gas",
+                                "goal": _t(res.at[ix, "v_mean_m_per_s"]) == vn * nf_mean})
     return obs
 
 
@@ -325,6 +332,47 @@ def _numeric_law(net, fr):
         gq = abs(law) / (1 + abs(pf - pt))
         if gq > worst:
             worst, where = gq, "pipe %s: momentum residual %r bar" % (ix, law)
+    # reported velocities / norm factors of single-section pipes, valves and heat exchangers
+    for tbl, fc, tc in (("pipe", "from_junction", "to_junction"), ("valve", "junction", "element"),
+                        ("heat_exchanger", "from_junction", "to_junction")):
+        if tbl not in net or not len(net[tbl]):
+            continue
+        for ix in net[tbl].index:
+            if tbl == "pipe" and int(net.pipe.at[ix, "sections"]) != 1:
+                continue
+            if tbl == "valve" and net.valve.at[ix, "et"] != "ju":
+                continue
+            r = net["res_" + tbl].loc[ix]
+            m = r.mdot_from_kg_per_s
+            if np.isnan(m) or abs(m) < 1e-7:
+                continue
+            fj, tj = int(net[tbl].at[ix, fc]), int(net[tbl].at[ix, tc])
+            pf = r.p_from_bar + p_correction_height_air(net.junction.at[fj, "height_m"])
+            pt = r.p_to_bar + p_correction_height_air(net.junction.at[tj, "height_m"])
+            d = net[tbl].at[ix, "inner_diameter_mm"] / 1000
+            A = d * d * math.pi / 4
+            tf, to = r.t_from_k, r.t_outlet_k
+            checks = []
+            if fl.is_gas:
+                K = lambda p: float(fl.get_compressibility(p))      # noqa
+                vn = m / (float(fl.get_density(tn)) * A)
+                pm = pf if pf == pt else 2 / 3 * (pf ** 3 - pt ** 3) / (pf ** 2 - pt ** 2)
+                tmn = (tf + to) / 2
+                nf = lambda p, t: pn * t * K(p) / (tn * p)          # noqa
+                if "v_mean_m_per_s" in r.index:
+                    checks.append(("v_mean_m_per_s", r.v_mean_m_per_s, vn * nf(pm, tmn)))
+                if "v_from_m_per_s" in r.index:
+                    checks += [("v_from_m_per_s", r.v_from_m_per_s, vn * nf(pf, tf)), ("v_to_m_per_s", r.v_to_m_per_s, vn * nf(pt, to))]
+                if "normfactor_from" in r.index:
+                    checks += [("normfactor_from", r.normfactor_from, nf(pf, tf)), ("normfactor_to", r.normfactor_to, nf(pt, to))]
+            else:
+                rho = (float(fl.get_density(tf)) + float(fl.get_density(to))) / 2
+                if "v_mean_m_per_s" in r.index:
+                    checks.append(("v_mean_m_per_s", r.v_mean_m_per_s, m / (rho * A)))
+            for nm, got, want in checks:
+                gq = abs(got - want) / (1e-9 + abs(want))
+                if gq > worst and gq > 1e-6:
+                    worst, where = gq, "%s %s: reported %s %r vs %r from the reported flow, pressures and temperatures" % (tbl, ix, nm, got, want)
     return worst, where
 
 
